@@ -132,6 +132,15 @@ impl<'a> Runner<'a> {
         let before = self.hub.lock().unwrap().trace.len();
         let r = self.poll_stream_once();
         if r {
+            // the consumer now holds an event and the machine is suspended in its emission: a shared lock it still holds
+            // would deadlock a consumer that takes that lock while handling the event (it runs in the task that polls)
+            let st_held = self.storage.as_ref().map(|s| s.try_lock().is_none()).unwrap_or(false);
+            let as_held = self.app_set.as_ref().map(|s| s.try_lock().is_none()).unwrap_or(false);
+            if st_held || as_held {
+                let mut h = self.hub.lock().unwrap();
+                let ev = h.trace.last().map(|l| l.split(' ').take(2).collect::<Vec<_>>().join(" ")).unwrap_or_default();
+                h.log(format!("L held storage={} appset={} at {}", st_held as u8, as_held as u8, ev));
+            }
             if let Some((prefix, storage)) = self.contend.clone() {
                 let hit = { let h = self.hub.lock().unwrap(); h.trace.len() > before && h.trace.last().map(|l| l.starts_with(&prefix)).unwrap_or(false) };
                 if hit {
